@@ -3,6 +3,7 @@ skeleton over synchronisation-relevant steps and FORCED onto the real engine's t
 
 Skeleton tokens (role, token):
   ("c", "got" | "empty" | "alive")            consumer: after a queue get / after queue.Empty / before the liveness check
+  (w,   "loop")                               worker w: about to ask the TaskProducer for the next operation
   (w,   "took:<op>" | "took:0")               worker w: after TaskProducer.next_operation (0 = no operation left)
   (w,   "put:<kind>")                         worker w: BEFORE events_queue.put of ScS / ScF / NFE / INT
   (w,   "exit")                               worker w: thread target returned
@@ -115,12 +116,16 @@ def skeleton(beh: list[tuple[str, int, dict]], nops: int) -> tuple[list[tuple], 
         elif action == "W_Loop":
             wpc = st.get("wpc") or []
             now = wpc[w - 1] if wpc else ""
+            if now != "take":
+                steps.append((w, "exit"))        # saw the stop request at the head of its loop and left (passing the check is silent)
+        elif action == "W_Take":
+            wpc = st.get("wpc") or []
+            now = wpc[w - 1] if wpc else ""
+            steps.append((w, "loop"))            # the hook between the stop check and producer.next_operation(): who asks next
             if now == "create":
                 steps.append((w, "took:%d" % st["wop"][w - 1]))
             else:
-                was_stop = bool(prev.get("stop")) or bool(prev.get("limit"))
-                if not was_stop:
-                    steps.append((w, "took:0"))
+                steps.append((w, "took:0"))
                 steps.append((w, "exit"))
         elif action in ("W_Started", "W_Err1"):
             steps.append((w, "put:ScS"))
@@ -220,6 +225,15 @@ class Scheduler(Recorder):
                 mine = "env" if env else self._role()
                 if mine == "c" and token in ("empty", "alive") and (role, tok) == ("c", "got"):
                     return   # spurious timeout while the granted put is still in flight: a stuttering step of the model
+                if mine == "c" and token in ("empty", "alive") and (role, tok) == ("c", "ctrlc"):
+                    # the model interrupts the consumer while it waits; the real consumer has just timed out of that wait:
+                    # Ctrl-C arrives now (still inside the consumer's try block, same handler as an interrupt inside get())
+                    self.idx += 1
+                    self.followed += 1
+                    self.emit({"e": "G", "role": "c", "tok": "ctrlc"})
+                    self.emit({"e": "CTRLC"})
+                    self.cv.notify_all()
+                    raise KeyboardInterrupt
                 ok = False
                 if tok == token:
                     if mine is not None and mine == role:
@@ -256,6 +270,8 @@ class Scheduler(Recorder):
             self.gate("empty")
         elif name == "unit.consumer.alive":
             self.gate("alive")
+        elif name == "unit.worker.loop":
+            self.gate("loop")
         elif name == "unit.worker.took":
             res = data.get("result")
             op = 0
